@@ -257,6 +257,10 @@ func decodePointsCompressed(d *decoder, level int, target []Point) {
 		target[idx].X = d.readFloat64()
 		target[idx].Y = d.readFloat64()
 		target[idx].Z = d.readFloat64()
+		if d.err == nil && !target[idx].IsUnit() {
+			d.err = fmt.Errorf("off center point %d is not unit length", idx)
+			return
+		}
 	}
 }
 
